@@ -162,6 +162,33 @@ def gen(rng, idx, tier):
                                {"base": "lig.one", "t": [1, 0, 0, 1, 17, 40]},
                                {"base": b2["name"], "t": [1, 0, 0, 1, 500, -30]},
                                {"base": b1["name"], "t": [1, 0, 0, 1, 700, 25]}]})
+        if rng.random() < 0.4:
+            # a mark made of marks ('hookcomb_barcomb'): anchor propagation promotes the component
+            # whose OUTLINE box corner is closest to the origin; one component is a curve whose
+            # control points reach far outside its outline box, the other one's corner lies
+            # (mostly) between the two boxes' corners
+            a, b = rng.randint(0, 60), rng.randint(200, 400)
+            hook = [[a + 100, b + 100, "line"], [a, b, None], [a + 200, b, None],
+                    [a + 120, b + 100, "curve"]]
+            ox, oy = (35, 12) if rng.random() < 0.75 else rng.choice([(-40, -30), (150, 90)])
+            bar = [[a + ox, b + oy, "line"], [a + ox + 150, b + oy, "line"],
+                   [a + ox + 150, b + oy + 20, "line"], [a + ox, b + oy + 20, "line"]]
+            glyphs.append({"name": "hookcomb", "width": 0, "unicodes": [0x309], "contours": [hook],
+                           "components": [], "anchors": [
+                               {"name": "_top", "x": a + 100, "y": b + 150},
+                               {"name": "top", "x": a + 100, "y": b + 260}]})
+            glyphs.append({"name": "barcomb", "width": 0, "unicodes": [0x304], "contours": [bar],
+                           "components": [], "anchors": [
+                               {"name": "_top", "x": a + 80, "y": b + 30},
+                               {"name": "top", "x": a + 80, "y": b + 90}]})
+            comps = [{"base": "hookcomb", "t": [1, 0, 0, 1, 0, 0]},
+                     {"base": "barcomb", "t": [1, 0, 0, 1, 0, 0]}]
+            rng.shuffle(comps)
+            glyphs.append({"name": "hookcomb_barcomb", "width": 0, "unicodes": [], "contours": [],
+                           "components": comps, "anchors": []})
+            if not any(a_["name"] == "top" for g in glyphs for a_ in g["anchors"]
+                       if g["name"] not in ("hookcomb", "barcomb")) and simple:
+                simple[0]["anchors"] = [{"name": "top", "x": 200, "y": 600}]
         lib = {"com.github.googlei18n.ufo2ft.filters": [
             {"name": "propagateAnchors", "pre": True}, {"name": "sortContours"}]}
         ufo = {"glyphs": glyphs, "kerning": [], "groups": {}, "features": "", "lib": lib,
@@ -266,6 +293,9 @@ def run(case):
         bump("cases_partial_glyph_order")
     if case["kind"] == "ds":
         bump("cases_designspace")
+    if case["kind"] == "outline" and any(g["name"] == "hookcomb_barcomb" for g in case["ufo"]["glyphs"]):
+        bump("cases_mark_of_marks_curve_vs_control_box"
+             + ("_per_library_only" if case.get("per_lib") else ""))
     if case["kind"] == "layout":
         bump("cases_multi_mark_classes")
         bump("cases_kern_groups")
